@@ -50,6 +50,7 @@ type loopInfo struct {
 	spec  *LoopSpec
 	entry *State // state at loop entry (before havoc)
 	cands   []loopCand
+	precise map[string][]string // heap -> the only references the loop modifies it at
 	nback   int
 	measure string
 }
@@ -812,7 +813,9 @@ func (f *frame) doIndexAddr(i *ssa.IndexAddr, st *State, pc string) {
 		g.instForalls(idx.S)
 		f.panicOb("index", pc, and("(<= 0 "+idx.S+")", "(< "+idx.S+" (len_ "+s.S+"))"), i.Pos(), "index out of range")
 		h := g.elemHeapOf(xt.Elem())
-		f.addrs[i] = addr{kind: "elem", heap: h, ref: "(ptr " + s.S + ")", idx: g.s.def("ix", T{"(+ (off " + s.S + ") " + idx.S + ")", "Int"}).S, ty: xt.Elem(), bty: xt.Elem()}
+		abs := g.s.def("ix", T{"(+ (off " + s.S + ") " + idx.S + ")", "Int"}).S
+		g.instForalls(abs) // facts stated over absolute positions in the backing array
+		f.addrs[i] = addr{kind: "elem", heap: h, ref: "(ptr " + s.S + ")", idx: abs, ty: xt.Elem(), bty: xt.Elem()}
 	case *types.Pointer: // pointer to array
 		arr := xt.Elem().Underlying().(*types.Array)
 		f.panicOb("index", pc, and("(<= 0 "+idx.S+")", fmt.Sprintf("(< %s %d)", idx.S, arr.Len())), i.Pos(), "index out of range")
